@@ -48,7 +48,8 @@ SPEC = dict(
                   "NOT modelled, NOT proved: constant_propagate, const_indexing_aggregates_function "
                   "(parameters of C07_partial; covered by the whole-program runs only)",
                   "has_side_effect/def tables of asm_lang are taken as given (e.g. DIV/LW are 'pure': a dead trapping "
-                  "op may be deleted; the theorems assume pure ops do not stop the machine)",
+                  "op may be deleted; the theorems assume pure ops do not stop the machine — the whole-program runs "
+                  "found std relying on that: raw_ptr::read::<()> loaded from $hp, fixed in b3f3289)",
                   "whole-program part: forc-test/fuel-vm in-process run of #[test]s (svharness::swayrun)"],
     assumptions=["flag registers $of/$err are read only by the op right after the one that sets them (true of "
                  "compiler-generated code; violated only by hand-written asm, see known finding C07-flags)",
